@@ -161,7 +161,7 @@ class LazyValue:
         return str(self.value)
 
     def __hash__(self):
-        return hash(self.value, self.lexeme)
+        return hash((self.value, self.lexeme))
 
     def __eq__(self, other):
         return (
